@@ -1,4 +1,5 @@
 """C19 — document transforms visit each target once and leave everything else alone."""
+import common
 import io
 import random
 
@@ -37,7 +38,7 @@ def run(out, tier, seed, model_ok):
     from mammoth import documents, transforms
     from mammoth import docx as mdocx
     rng = random.Random(seed * 7919 + 19)
-    n = 500 if tier == "quick" else 6000
+    n = common.deepen(500 if tier == "quick" else 6000)
     lines, meta = [], []
     for i in range(n):
         g = DocGen(seed * 1000003 + i, PROFILE)
